@@ -21,7 +21,8 @@
     exactly the listed seam calls in order; a stray access of the model is a panic of the translation.
 
     Hypotheses.  Map / Unmap: every memory word is a 64-bit word ([T.mem_w64]; the model's [set_frame] does not
-    truncate the entry it reads), cr3 and the arguments are 64-bit values.  Init: the model resolves the temporary
+    truncate the entry it reads), cr3 and the arguments are 64-bit values ([cr3 s], [pdts s slot], [flags] < 2^64).
+    Activate: the receiver's frame [pdts s slot] < 2^64.  Init: the frame argument < 2^64, and: the model resolves the temporary
     page ONCE (before kernel.Memset) and then writes the recursive entry in one step, whereas the Go code - and the
     translation - dereferences the pointer again after Memset and after each of its three stores
     (the stores "*p = 0", SetFlags, SetFrame).  The two agree when the frame that the temporary page is mapped to is not itself
